@@ -2,7 +2,7 @@
    Only statements closed by [exact]; the lemmas live in Proofs/Stores.v, the executable
    models (memory store, OCI layout store, abstract specification) in Model/Stores.v. *)
 From Oras Require Import Base.Prelude Generated.GC06 Model.Stores Model.StoresConc Model.StoresConcOci
-     Proofs.Stores Proofs.StoresConc Proofs.StoresConcOci.
+     Proofs.Stores Proofs.StoresConc Proofs.StoresConcOci Proofs.StoresConcOci2.
 From Coq Require Import Permutation.
 
 (* For every history, the memory store (cas.Memory + resolver.Memory + graph.Memory)
@@ -179,6 +179,30 @@ Theorem C06_quiescent_serialisable_oci_partial :
                 In k (map gk (g_predecessors n (o_graph q))).
 Proof. exact quiescent_serialisable_oci. Qed.
 Print Assumptions C06_quiescent_serialisable_oci_partial.
+
+(* The complete statement (the part missing above): with the additional hypothesis that a
+   reference is never another node's digest string (wf2_op), EVERY Resolve answer --
+   names, digest strings (resolver entry or blob fallback), the empty reference -- at
+   quiescence is the one of the sequential order. *)
+Theorem C06_quiescent_serialisable_oci :
+  forall (U : N -> gkey), (forall g, k_dig (U g) = g) ->
+  forall (B : N -> blob) (progs : list (list op)) (sched : list nat),
+  Forall (wf2_op U B) (concat progs) ->
+  let cf := oconf_run (oconf_init progs) sched in
+  oquiescent cf = true ->
+  exists order : list (nat * op),
+    Permutation (map snd order) (concat progs) /\
+    (forall i, log_of i order = nth i progs []) /\
+    let q := fst (run oci_step oci_init (map snd order)) in
+    o_blobs (oc_store cf) = o_blobs q /\
+    (forall r, snd (oci_step (oc_store cf) (Resolve r)) = snd (oci_step q (Resolve r))) /\
+    forall n k, In k (map gk (g_predecessors n (o_graph (oc_store cf)))) <->
+                In k (map gk (g_predecessors n (o_graph q))).
+Proof. exact quiescent_serialisable_oci_full. Qed.
+Print Assumptions C06_quiescent_serialisable_oci.
+
+Example C06_ex_oci_wf2 : Forall (wf2_op ex_U ox_B) (concat ox_progs).
+Proof. exact ox_wf2. Qed.
 
 Example C06_ex_oci_wf : Forall (wf_op ex_U ox_B) (concat ox_progs).
 Proof. exact ox_wf. Qed.
